@@ -1,6 +1,7 @@
 import PolyVerif.Lemmas.GenbankOrigin
 import PolyVerif.Lemmas.GenbankLocus
 import PolyVerif.Lemmas.GenbankSub
+import PolyVerif.Lemmas.GenbankParse
 /-
 Property C01 — GenBank parsing returns exactly what a well-formed record states.
 
@@ -64,5 +65,50 @@ theorem block_rejoined (kw t : Str) (bs : List Nat) (stop : Str) (rest : List St
 example : isText c!"Construction of improved M13 vectors using oligodeoxynucleotide-directed mutagenesis." = true
     ∧ Stop c!"ACCESSION   ." ∧ Stop c!"  JOURNAL   Gene" := by
   refine ⟨by decide, Or.inl (by decide), Or.inr ⟨by decide, by decide⟩⟩
+
+/-! ## SOURCE / ORGANISM and REFERENCE -/
+
+/-- SOURCE and ORGANISM texts are both recovered, for every wrapping of either, whatever keyword line
+follows (`StartsStop`) -/
+theorem source_organism_recovered (src org : Str) (bs bo : List Nat) (more : List Str)
+    (hs : isText src = true) (ho : isText org = true) (hm : StartsStop more) :
+    getSourceOrganism (split ((block c!"SOURCE" src bs).headD []) c!" ")
+      ((block c!"SOURCE" src bs).drop 1 ++ (block c!"  ORGANISM" org bo ++ more)) = .ok (src, org) :=
+  getSourceOrganism_blocks src org bs bo more hs ho hm
+
+/-- REFERENCE: the number, the range (also when the REFERENCE line is wrapped) and the optional AUTHORS,
+TITLE, JOURNAL, PUBMED, REMARK blocks are recovered for every wrapping, whatever keyword line `m` follows -/
+theorem reference_recovered (i : Nat) (r : RRef) (ℓ : RefLayout) (m : Str) (rest : List Str)
+    (h : wfRef r = true) (hm : quickMetaCheck m = .ok true) :
+    getReference (split ((refLines i r ℓ).headD []) c!" ") ((refLines i r ℓ).drop 1 ++ m :: rest) = .ok (toRef i r) :=
+  getReference_lines i r ℓ m rest h hm
+
+example : wfRef { range := c!"(bases 1 to 2686)", authors := c!"Norrander J, Kempe T, Messing J",
+                  title := c!"see the TITLE page SOURCE", journal := c!"Gene. 1983 Dec;26(1):101-6." } = true := by decide
+
+/-! ## FEATURES -/
+
+/-- Every feature in file order with its key, its location text (also written on several lines, with or
+without qualifiers) and every qualifier value verbatim — values over printable ASCII other than the double
+quote, including '/', '=', leading and trailing blanks, values wrapped at any set of blanks (also before a
+'/'), `/translation` values cut anywhere, features without qualifiers — for every table followed by a line
+`stop` that is a keyword line and not a feature-table line (`ORIGIN`). -/
+theorem features_recovered (fs : List RFeature) (ls : List FeatLayout) (stop : Str) (B : List Str)
+    (hw : ∀ f ∈ fs, wfFeature f = true) (hm : quickMetaCheck stop = .ok true) (hs : FStop stop) :
+    getFeatures (featsLines fs ls ++ stop :: B) = .ok (fs.map toFeature) :=
+  getFeatures_table fs ls stop B hw hm hs
+
+example : wfFeature { key := c!"CDS", loc := c!"join(1..20,complement(30..40))",
+                      quals := [(c!"note", c!"a /b = \"c\"".filter (· != '"')), (c!"translation", c!"MKV")] } = true
+    ∧ quickMetaCheck c!"ORIGIN" = .ok true ∧ FStop c!"ORIGIN" := by
+  refine ⟨by decide, by decide, ⟨by decide, by decide, by decide⟩⟩
+
+/-! ## the whole record -/
+
+/-- Composition on lines: the main loop over the lines of a laid-out record (followed by any number of
+empty lines) returns what the record states. -/
+theorem parseLoop_layout_lines (r : GbRec) (ℓ : RecLayout) (tail : List Str) (h : WF r) (ht : ∀ l ∈ tail, l = []) :
+    parseLoop (layout r ℓ ++ tail) {} = .ok (toSequence r) :=
+  parseLoop_layout r ℓ tail h ht
 
 end PolyVerif.Props.C01
